@@ -316,7 +316,7 @@ func runPair(c *fw.Ctx, idx int, x, y univ.SNode, nested bool) {
 		comps := [][]int{{3}, {1, 2}, {1, 1, 1}}
 		comp := comps[v%len(comps)]
 		codec := []string{"null", "deflate", "snappy"}[v%3]
-		f := fileCase{schema: rs, datums: recs, encoded: encs, comp: comp, codec: codec, mode: v % filedrv.NumModes, encDesc: fmt.Sprintf("variant %d", v)}
+		f := fileCase{schema: rs, datums: recs, encoded: encs, comp: comp, codec: codec, mode: v % filedrv.NumReadModes, encDesc: fmt.Sprintf("variant %d", v)}
 		data := f.bytes()
 		locus := x.Chain + "," + y.Chain
 		if nested {
